@@ -57,6 +57,7 @@ def run(chk):
                        "cells that fit and divide the edges: each refusal dominates the store of the cell counts")
     geom._mesh_store_values(chk, "C01")
     d9_roundtrip(chk, repo)
+    d10_argument_dispatch(chk, repo)
     chk.trust("np.floor / np.clip / np.linspace / itertools.product semantics as documented (product: last factor fastest)")
     chk.assume("every floating-point aspect is undecided: which way floor rounds on a cell face, the 0.1% divisibility and "
                "tolerance_factor accept/reject boundaries, exact tiling in floats")
@@ -233,3 +234,73 @@ def d9_roundtrip(chk, repo):
     want = r_add(idx, Rat(p_const(Fraction(1, 2))))
     chk.ob("mesh.Mesh::index-point-index", v.ctx.eq(sub, want), "C01.D9",
            f"floor argument after substitution: {v.show(sub)[:200]}; expected index + 1/2", w.f, r2)
+
+
+def _branch_conditions(v, stmt):
+    """terms of the if/elif chain starting at `stmt` -> [(test term, if-statement)], plus the final else block"""
+    out = []
+    cur = stmt
+    while True:
+        out.append((v.ev.term(cur.test, at=cur), cur))
+        if cur.orelse and len(cur.orelse) == 1 and isinstance(cur.orelse[0], ast.If):
+            cur = cur.orelse[0]
+            continue
+        return out, cur.orelse
+
+
+def d10_argument_dispatch(chk, repo):
+    from ..cfg import always_raises
+    chk.rule("C01.D10", "argument dispatch and type refusals: a mesh takes a region XOR two corners and n XOR cell (anything else "
+                        "raises); index2point / point2index accept a scalar or a sequence of integers / reals and raise TypeError "
+                        "otherwise; containment of anything that is neither a point nor a region is False")
+    v = FV(repo, "mesh.Mesh.__init__")
+    chains = [s for s in v.body if isinstance(s, ast.If)]
+    chk.require(len(chains) >= 2, "Mesh.__init__: argument dispatch vanished")
+    want = [["region is not None and p1 is None and p2 is None", "region is None and p1 is not None and p2 is not None"],
+            ["cell is not None and n is None", "n is not None and cell is None"]]
+    for k, (chain, specs) in enumerate(zip(chains[:2], want)):
+        conds, tail = _branch_conditions(v, chain)
+        ok = len(conds) == 2 and all(v.eq(ct, v.spec(sp)) for (ct, st), sp in zip(conds, specs)) and always_raises(tail)
+        chk.ob(f"mesh.Mesh.__init__::dispatch#{k}", ok, "C01.D10",
+               f"branches {[v.show(ct)[:70] for ct, st in conds]}; expected `{specs[0]}` / `{specs[1]}` / else raise", v.f, chain)
+    for cond, exc, key in (("not isinstance(cell, (tuple, list, np.ndarray))", "TypeError", "cell-type"),
+                           ("len(cell) != self.region.ndim", "ValueError", "cell-length"),
+                           ("not all((isinstance(i, Number) for i in cell))", "TypeError", "cell-numbers"),
+                           ("not isinstance(n, (tuple, list, np.ndarray))", "TypeError", "n-type")):
+        ok = geom._guard_in_function(v, cond)
+        chk.ob(f"mesh.Mesh.__init__::refuses::{key}", ok, "C01.D10", f"`{cond}` must raise {exc}", v.f)
+    for q, scalar, elem in (("mesh.Mesh.index2point", "numbers.Integral", "numbers.Integral"),
+                            ("mesh.Mesh.point2index", "numbers.Real", "numbers.Real")):
+        w = FV(repo, q)
+        pname = w.f.params[1]
+        chain = [s for s in w.body if isinstance(s, ast.If)][0]
+        conds, tail = _branch_conditions(w, chain)
+        P = w.spec(pname)
+        kinds = {}
+        for ct, st in conds:
+            if w.eq(ct, w.spec(f"isinstance({pname}, {scalar})")):
+                kinds["scalar"] = st
+            elif (decode_call(w.ctx, ct) or ("",))[0] == "isinstance" and w.eq(decode_call(w.ctx, ct)[1][0], P):
+                kinds["sequence"] = st
+        ok = set(kinds) == {"scalar", "sequence"} and always_raises(tail)
+        if ok:
+            inner = [s for s in kinds["sequence"].body if isinstance(s, ast.If) and always_raises(s.body)]
+            ok = len(inner) == 1 and w.eq(w.ev.term(inner[0].test, at=inner[0]),
+                                          w.spec(f"any(not isinstance(i, {elem}) for i in {pname})"))
+            wrap = [s for s in kinds["scalar"].body if isinstance(s, ast.Assign)]
+            ok = ok and len(wrap) == 1 and w.eq(w.term(wrap[0].value, at=wrap[0]), w.spec(f"[{pname}]"))
+        chk.ob(f"{q}::argument-types", ok, "C01.D10",
+               f"a scalar {scalar.split('.')[-1]} is wrapped into a list, a tuple/list/array must hold only {elem.split('.')[-1]}s "
+               "(TypeError otherwise), anything else raises TypeError", w.f, chain)
+    c = FV(repo, "region.Region.__contains__")
+    rets = [r for r in c.returns() if r.value is not None]
+    last = rets[-1]
+    chk.ob("region.Region.__contains__::other-types-false", is_const(c.ctx, c.ev.term(last.value, at=last), False) and
+           c.cfg.parent.get(id(last), (None,))[0] is None, "C01.D10",
+           "objects that are neither points nor regions are not contained", c.f, last)
+    conds = [s for s in c.body if isinstance(s, ast.If)]
+    okc = len(conds) == 2 and c.eq(c.ev.term(conds[0].test, at=conds[0]),
+                                   c.spec("isinstance(other, (numbers.Real, collections.abc.Iterable))")) and \
+        c.eq(c.ev.term(conds[1].test, at=conds[1]), c.spec("isinstance(other, self.__class__)"))
+    chk.ob("region.Region.__contains__::dispatch", okc, "C01.D10",
+           "points (numbers / iterables) use the coordinate test, regions the two-corner test", c.f)
